@@ -15,6 +15,8 @@ P1 == <<"p1">>
 P2 == <<"p1","p2">>
 AllIds == {"d1"} \cup SeqRange(SecSeq) \cup SeqRange(PropSeq)
 Order == SecSeq \o PropSeq
+\* position of a Section handle in SecSeq (handles are strings: TLC does not order strings)
+Idx(h) == CHOOSE i \in 1..Len(SecSeq) : SecSeq[i] = h
 Init == /\ st = [kind  |-> [x \in AllIds |-> IF x = "d1" THEN "doc" ELSE "unborn"],
                  kids  |-> [x \in AllIds |-> <<>>], plist |-> [x \in AllIds |-> <<>>],
                  par   |-> [x \in AllIds |-> NONE], name |-> [x \in AllIds |-> "-"],
@@ -33,7 +35,7 @@ Grow == /\ links = {} /\ nxt <= Len(Order) /\ nxt' = nxt + 1 /\ UNCHANGED links
 \* links are added in increasing order of the linking Section so that each set is reached once
 AddLink == /\ Cardinality(links) < MaxLinks /\ UNCHANGED <<st, nxt>>
            /\ \E L \in Secs(st), T \in Secs(st), f \in {"abs", "rel"} :
-                /\ \A e \in links : e.L < L
+                /\ \A e \in links : Idx(e.L) < Idx(L)
                 /\ LinkShapeOK(st, links \cup {[L |-> L, T |-> T, form |-> f]})
                 /\ links' = links \cup {[L |-> L, T |-> T, form |-> f]}
 Next == Grow \/ AddLink
@@ -41,7 +43,7 @@ Spec == Init /\ [][Next]_<<st, nxt, links>>
 InvShape == LinkShapeOK(st, links)
 \* model theorem: the path the spec renders for a link designates its target
 ThmLinkPath == \A e \in links : Resolve(st, e.L, IF e.form = "abs" THEN PathOf(st, e.T) ELSE RelPath(st, e.L, e.T)) = e.T
-SetToSeq(S) == CHOOSE s \in [1..Cardinality(S) -> S] : \A i, j \in 1..Cardinality(S) : i < j => s[i].L < s[j].L
+SetToSeq(S) == CHOOSE s \in [1..Cardinality(S) -> S] : \A i, j \in 1..Cardinality(S) : i < j => Idx(s[i].L) < Idx(s[j].L)
 Emit == links' # links =>
           PrintT(ToJson([st |-> st', links |-> [i \in 1..Cardinality(links') |->
                     LET e == SetToSeq(links')[i] IN
